@@ -322,6 +322,12 @@ def collision_table(R, ctx):
             if sib_empty is not None and sib_empty != (mx == 'None'):
                 continue            # infeasible: is_empty() and max() of the same vector disagree
             sib_empty = (mx == 'None')
+        # `sort(); match siblings.pop() { None => 0, Some(highest) => .. }`: pop() of the same (only sorted) vector examines emptiness too
+        pp = next((v for a, v in r.cond if a.startswith('variant(') and re.search(r'Vec::<T, A>::pop#\d+\)$', a)), None)
+        if pp is not None:
+            if sib_empty is not None and sib_empty != (pp == 'None'):
+                continue            # infeasible: is_empty() and pop() of the same vector disagree
+            sib_empty = (pp == 'None')
         sfx = r.get('variant(self.o_suffix)')
         key = f"suffix={sfx}|exists={[v for a, v in ex]}|siblings_empty={sib_empty}"
         res = r.long(repr(r.result))
